@@ -1,12 +1,13 @@
 //! Conformance harness: binds the TLA+ specification in /verif/spec to the glam working tree.
 //! Replay direction: read the `CASE` lines TLC printed, run the real code, compare.
 //! Record direction: drive the real code with seeded random inputs, log one event per call.
-#![cfg_attr(feature = "core-simd", allow(unused))]
+#![allow(unused_variables, unused_macros, clippy::all)]
 
 pub mod fl;
 pub mod fvec;
 pub mod tv;
 pub mod acc;
+pub mod ivec;
 pub mod swz_gen;
 
 use serde_json::{json, Value};
